@@ -59,6 +59,20 @@ func checkCmd(args []string) int {
 	cr := newCheckResult(id, tierOf(args[1:]))
 	cr.trusted = append(append([]string{}, commonTrusted...), p.trusted...)
 	cr.assumptions = append(append([]string{}, commonAssumptions...), p.assumptions...)
+	if p.id == "C17" {
+		c17Check(cr)
+		if cr.tier == "thorough" {
+			mustFailPhase(cr)
+		}
+		return cr.finish(p.note)
+	}
+	if p.id == "C06" {
+		c06Check(cr, update)
+		if cr.tier == "thorough" {
+			mustFailPhase(cr)
+		}
+		return cr.finish(p.note)
+	}
 	if p.instance {
 		if len(p.patterns) > 0 {
 			// functions of the repository that the instance-wise property also depends on
@@ -96,6 +110,34 @@ func checkCmd(args []string) int {
 }
 
 func init() {
+	register(&propInfo{
+		id: "C06",
+		trusted: []string{
+			"the iteration-footprint separation rule and its tables of external functions (symex/order.go): read-only externals (fmt, errors, strings, strconv, path/filepath, regexp, go/types, go/ast, reflect.Value getters), externals that write only their receiver (reflect.Value.Set, bytes.Buffer, strings.Builder, text/template.Template), and types treated as immutable once built (go/types, go/ast, go/token, packages.Package, context.Context, reflect.Type, regexp.Regexp, zerolog)",
+			"go/packages returns the packages of a pattern list, their files and their syntax trees in an order that is a function of the patterns' contents only (the order of the patterns may vary: see the assumed loop of GetPackages)",
+			"the formatters (goimports, gofmt) are functions of their input bytes",
+		},
+		assumptions: []string{
+			"scope: functions of config, internal, internal/cmd (without the init, migrate, showconfig and version sub-commands), template and template_funcs; internal/logging and tools/ are outside (log output is not part of the property)",
+			"whole-run equality is NOT proved: what is proved is the lemma set (every map-range loop commutes under the stated footprint assumptions, no other source of variation is used, generated files declare no interfaces); sequential composition of deterministic steps is deterministic",
+			"an error returned from inside a map-range loop makes the run fail (errors are not swallowed: C09), so which key fails first changes only the message of a failing run",
+		},
+		note: "partial, lemma-level claim for C06; the order-independence obligations are decided by a footprint rule over the typed AST (callee frames from callee bodies or assigns clauses), not by SMT queries; two loops are assumed, not checked, and are listed",
+	})
+	register(&propInfo{
+		id: "C17",
+		trusted: []string{
+			"text/template/parse (the parser mockery itself uses): trim markers are applied to the text nodes exactly as at run time; an {{if}} on (index .TemplateData k) takes its list exactly when the key is set to a non-empty value",
+			"template_funcs readFile returns the file's content unmodified (contract of ReadFile, property C16)",
+			"go/build's rule for //go:build lines (honoured when preceded only by blank lines and // comments and placed before the package clause) and go/ast.IsGenerated's rule for the marker, as implemented by the Go release in use",
+			"the formatters keep the comments and blank lines of the header (sampled by the bounded phase, not proved)",
+		},
+		assumptions: []string{
+			"the boilerplate is comment-only text (every line blank or starting with //), as the property's quantifier says; the expression is a valid build-constraint expression",
+			"only the text before the package clause is analysed; the two conditionals on template-data are the only control flow the analysis follows there (any other construct makes the check UNDECIDED, not proved)",
+		},
+		note: "header obligations hold for every boilerplate content and every expression on each of the four paths of each built-in template; they are statements about template text, decided by symbolic execution of the header and literal string reasoning, not by SMT; the toolchain's acceptance of the result is sampled (bounded), not proved",
+	})
 	register(&propInfo{
 		id:       "C15",
 		patterns: []string{"./template"},
